@@ -129,6 +129,20 @@ def is_pure_arith(e):
     return r
 
 
+def short_str(e, limit=300):
+    """bounded-cost rendering of a goal for reports (pretty-printing a large term in full costs seconds)"""
+    try:
+        if z3.is_app(e) and e.num_args() > 0:
+            head = e.decl().name()
+            parts = []
+            for c in e.children()[:3]:
+                parts.append(short_str(c, limit // 3) if c.num_args() > 0 and limit > 60 else (str(c) if c.num_args() == 0 else c.decl().name() + "(..)"))
+            return (f"{head}({', '.join(parts)}{', ..' if e.num_args() > 3 else ''})")[:limit]
+        return str(e)[:limit]
+    except Exception:  # noqa: BLE001
+        return "<goal>"
+
+
 def _walk(e, seen, fn):
     if e.get_id() in seen:
         return
@@ -526,7 +540,7 @@ def prepare(obs, shifts_for=None, extra_inst_terms=None, units=(), last_for=None
                 if key not in cache:
                     cache[key] = _smt2(list(hy) + [z3.Not(body)])
                 texts.append((nm, cache[key]))
-            queries.append(AtomQuery(ob.name, oi, ai, ob.line, ob.path, texts, str(body)[:300]))
+            queries.append(AtomQuery(ob.name, oi, ai, ob.line, ob.path, texts, short_str(body)))
     return queries
 
 
